@@ -112,11 +112,12 @@ Lemma WI_retable ne R R' s s' :
                 (t1 = t0 \/ (ne = false /\ is_prio_task s' t0 = false))) ->
   (forall t1 l f had, hasfr s R t1 (InAcquireP l f had) ->
      exists t0, hasfr s' R' t0 (InAcquireP l f had)) ->
+  (forall t0 fr c, cwait fr = Some c -> hasfr s' R' t0 fr -> exists t1, hasfr s R t1 fr) ->
   (snd R' <> [] -> fst R' < length (tasks s')) ->
   (ne = true -> forall t0, is_eager (tcont_ (gett s' t0)) = false) ->
   WI ne R s -> WI ne R' s'.
 Proof.
-  intros El Ec Ef Hlen Hold Hnew Hfr1 Hfr2 Hrt Hne W.
+  intros El Ec Ef Hlen Hold Hnew Hfr1 Hfr2 Hfr3 Hrt Hne W.
   assert (Hl : forall l, getl s' l = getl s l) by (intros; unfold getl; now rewrite El).
   assert (Hr : forall l, rows s' l = rows s l) by (intros; unfold rows; now rewrite Hl).
   assert (Ho : forall l, objs s' l = objs s l) by (intros; unfold objs; now rewrite Hl).
@@ -157,6 +158,8 @@ Proof.
   - intros c. rewrite Hc. apply (w_cq W).
   - intros c. rewrite Hc. apply (w_cd W).
   - intros c f. rewrite Hc, Hf, Ef, El. apply (w_cf W).
+  - intros t0 fr c Hh Ec0. destruct (Hfr3 t0 fr c Ec0 Hh) as (t1 & Hh1).
+    pose proof (w_cw W t1 fr c Hh1 Ec0) as Hck. unfold cok in *. now rewrite Hc, El.
 Qed.
 
 Lemma kproj_tcont s s' t : kproj s' = kproj s -> tcont_ (gett s' t) = tcont_ (gett s t).
@@ -235,7 +238,7 @@ Proof.
     + (* SStart *)
       cbn [exec exec_ok exec_ne] in *. destruct (Hsp SStart ltac:(discriminate)) as (I1 & Ht1 & W1 & F1).
       destruct (spawn_task s SStart child) as [s1 t']. cbn [fst snd yfr] in *. split; [|exact F1].
-      apply (WI_push_inert ne _ t [InSleep0] [] s1); auto. intros l f had [H|[]]. discriminate.
+      apply (WI_push_inert ne _ t [InSleep0] [] s1); auto. apply inert_noacqp. repeat constructor.
     + (* SEager *)
       cbn [exec exec_ok exec_ne] in *.
       assert (En : ne = false) by (destruct ne; auto; destruct (Hne eq_refl)).
@@ -315,6 +318,9 @@ Proof.
               * rewrite Fbn in Hh. destruct Hh.
               * unfold tframes in *. rewrite Ego; auto.
             + exists tn. apply hasfr_nil. unfold tframes. rewrite Egt. exact Hh.
+          - intros t0 fr c _ Hh. apply hasfr_nil in Hh. destruct (Nat.eq_dec t0 tn) as [->|Hn0].
+            + exists t. right. simpl. split; auto. unfold tframes in Hh. rewrite Egt in Hh. exact Hh.
+            + exists t0. left. unfold tframes in *. now rewrite <- (Ego t0 Hn0).
           - simpl. congruence.
           - discriminate.
           - exact Wb. }
@@ -367,6 +373,9 @@ Proof.
           * rewrite Hfr in Hh. destruct Hh.
           * unfold tframes in *. now rewrite (Ego t1 Hn).
         + subst t1. exists t. apply hasfr_nil. unfold tframes. rewrite Eg. exact Hh.
+      - intros t0 fr c _ Hh. apply hasfr_nil in Hh. exists t0. destruct (Nat.eq_dec t0 t) as [->|Hn].
+        + right. simpl. split; auto. unfold tframes in Hh. rewrite Eg in Hh. exact Hh.
+        + left. unfold tframes in *. now rewrite <- (Ego t0 Hn).
       - simpl. congruence.
       - intros En t0. destruct (Nat.eq_dec t0 t) as [->|Hn]; [now rewrite Eg|].
         rewrite Ego by auto. apply (w_necont W En).
@@ -468,6 +477,9 @@ Proof.
     - intros t1 l0 f0 had0 Hh. apply hasfr_nil in Hh. exists t1.
       destruct (Nat.eq_dec t1 t) as [->|Hn]; [right; simpl; auto|].
       left. rewrite Hfr2. apply Nat.eqb_neq in Hn. rewrite Nat.eqb_sym in Hn. now rewrite Hn.
+    - intros t0 fr c _ [Hh|[E Hh]]; simpl in *.
+      + exists t0. apply hasfr_nil. rewrite Hfr2 in Hh. destruct (Nat.eqb t t0); [destruct Hh|exact Hh].
+      + exists t. apply hasfr_nil. exact Hh.
     - intros _. exact Ht2.
     - intros En t0. destruct (Nat.eq_dec t0 t) as [->|Hn]; [now rewrite Eg|].
       rewrite Ego by auto. apply (w_necont W En).
@@ -595,6 +607,7 @@ Proof.
   - intros c. destruct (init_getc p fa dr lks cds nev c) as [_ E]. fold s in E. rewrite E. constructor.
   - intros c f. destruct (init_getc p fa dr lks cds nev c) as [E1 E2]. fold s in E1, E2. rewrite E1, E2.
     intros [[]|[]].
+  - intros t fr c [H|[_ H]]; [rewrite Hfr in H; destruct H|destruct H].
 Qed.
 
 (* ------------------------------------------------------------ main theorems *)
